@@ -525,7 +525,6 @@ func (t *tracer) TransitionEnd(tx *am.Transition) {
 	if m.SavePending.Load() >= m.Cfg.QueueBatch {
 		m.syncMx.RLock()
 		m.writeDb(true)
-		m.checkGc()
 	}
 }
 
@@ -974,9 +973,22 @@ func (m *Memory) checkGc() {
 
 		return
 	}
+	defer m.gcMx.Unlock()
 
 	timeDb := gorm.G[Time](m.Db)
-	_, err := timeDb.
+	// ticks reference times: they go first
+	_, err := gorm.G[Tick](m.Db).
+		Where("machine_id = ?", m.machRec.ID).
+		Where("time_id NOT IN (?)", timeDb.
+			Select("id").
+			Where("machine_id = ?", m.machRec.ID).
+			Order("id DESC").
+			Limit(m.Cfg.MaxRecords)).
+		Delete(m.Ctx)
+	if err != nil {
+		m.onErr(fmt.Errorf("failed to GC: %w", err))
+	}
+	_, err = timeDb.
 		Where("machine_id = ?", m.machRec.ID).
 		Where("id NOT IN (?)", timeDb.
 			Select("id").
@@ -1065,6 +1077,11 @@ func (m *Memory) writeDb(rLocked bool) {
 		if err != nil {
 			m.onErr(err)
 			return err
+		}
+		m.Saved.Add(uint64(l))
+		// rotate once the batch is in (ticks reference times)
+		if rLocked {
+			m.checkGc()
 		}
 
 		return nil
